@@ -55,6 +55,10 @@ CLAIMS = {
          "_SELECT KEY / UNIQUE directives naming unknown columns through sql.NewTable and sqlcrud.generateTable. Sweeps: typescript, dart (incl. Generate), SQL validators, gounions, randdata on every analysis.Type skeleton "
          "of depth<=1 (quick) / 2 (thorough) over the nine node kinds. NOT decided: the full statement over all well-typed packages (createType on arbitrary go/types graphs, unbounded recursion, packages.Load).",
          "DESIGN.md section 4 (C18)", ""),
+ "C01": ("Bug hunting only for the headline (type-checking of the generated Go needs the Go type checker as oracle, which is not encoded): exit 0 means none of the encoded mechanisms breaks compilation within the bounds. Decided clauses, all necessary for "
+         "'compiles': randdata function names are distinct for distinct named types (symbolic package and type names); for every type skeleton of depth<=2 every rand<ID>() called is defined and none is defined twice; the enum choice literal lists exactly the exported "
+         "constants with no empty element; gounions Kind constants are distinct across two unions (symbolic names); every selector on a table value in the CRUD code names an existing field (primary key spelled Id or ID). Two naming collisions are listed known findings.",
+         "DESIGN.md section 5 (C01)", ""),
  "C14": ("Decides the request-shape clause on generateMethod/generateAxiosCall/typeIn/typeOut/asObjectKey/convertTypedQueryParams/renderTypes/GenerateAxios for endpoints with symbolic handler, URL, form and query names: method named after the handler, "
          "Axios.<verb>(fullUrl, ...) with fullUrl = baseUrl + URL, second argument formData / params / null (body-less POST, PUT) / absent, exactly the declared formData.append calls, query object with exactly the declared parameters converted by kind, "
          "arraybuffer iff blob, `return true` iff no return type, blob + file name for blob routes, every parameter the body uses declared in the signature; file level (1..2 endpoints, concrete names): one method per endpoint, every type a signature mentions "
